@@ -20,11 +20,16 @@ LEVEL_TEXT = ("Fault enumeration on the real code: for generated programs every 
               "as a kill point (process exit before the open) and as a torn write (half of the bytes written, then "
               "exit); the resumed map(cleanup=False) in a fresh process must succeed, equal the reference denotation and "
               "not recompute elements that were completely stored. The write primitives use the file system and "
-              "cloudpickle, which the proof rung cannot model, so no obligation is counted as proved.")
+              "cloudpickle, which the proof rung cannot model. Proved part (pyvc): _existing_and_missing_indices, "
+              "the resume decision - for all arrays and masks, `missing` is exactly the increasing list of selected "
+              "indices with some output absent and `existing` exactly those with every output stored (loop invariant "
+              "over the spec function cnt; StorageBase.mask_linear is an assumed contract checked per backend under "
+              "C07).")
 LEVEL_NOTE = ("Bounds: programs with <=8 user calls, storages file_array / dict / shared_memory_dict, sequential (and a "
               "thread pool for the raise faults). Not covered (N/A for this family): crashes inside mkdir/rmtree, "
               "durability without fsync, killing individual pool workers.")
-TECHNIQUE = "bounded fault enumeration of the resume contract on the real code (raise points, kill points, torn writes)"
+TECHNIQUE = ("fault enumeration of the resume contract on the real code (raise points, kill points, torn writes); the "
+             "resume decision _existing_and_missing_indices discharged by z3")
 EXPLANATION = LEVEL_TEXT
 RULE = ("program x storage x fault; faults: raise at call k (all k), raise at k1 then k2, kill before the n-th "
         "open-for-write (all n), torn n-th write (all n); distinct = distinct (program, storage, fault); non-trivial = "
